@@ -523,6 +523,23 @@ def fam_bind(r, idx, sweep=None, pc_only=False):
                 # the leaf directly, through the middle helper, or both in either order
                 for callee in r.choice([[h], [mid], [h, mid], [mid, h], [mid]]):
                     call(e, callee)
+    if pcs and ngroups and r.random() < 0.12:
+        # the push constant is used by nobody, some other variable by one stage, and an entry
+        # point of another stage touches nothing at all: the fallback is "every stage that has
+        # an entry point"
+        for h_ in spec.funcs + spec.entries:
+            h_.actions = [a for a in h_.actions if not (a.what == "access" and
+                                                        pcs[0].name in (a.glob or []))]
+        spec.funcs = [f for f in spec.funcs if not f.name.startswith(("fn_pc_", "fn_pcmid_"))]
+        for h_ in spec.funcs + spec.entries:
+            h_.actions = [a for a in h_.actions if not (a.what == "call" and a.callee.startswith(
+                ("fn_pc_", "fn_pcmid_")))]
+        idle = [s_ for s_ in ("vertex", "fragment", "compute") if s_ not in stages]
+        if idle:
+            spec.entries.append(Entry(namer.fresh({"vertex": "vs_", "fragment": "fs_",
+                                                   "compute": "cs_"}[idle[0]]), idle[0]))
+        elif len(spec.entries) > 1:
+            spec.entries[-1].actions = []
     if r.random() < 0.15:
         saturating_entries(r, spec, namer, stages)
     if r.random() < 0.15 and ngroups and spec.entries:
@@ -530,6 +547,43 @@ def fam_bind(r, idx, sweep=None, pc_only=False):
     finish_entries(r, spec, namer)
     if r.random() < 0.07:
         alias_binding(r, spec, namer)
+    spec.decl_order = r.choice(["default", "default", "functions_first", "entries_first"])
+    return spec
+
+
+def fam_many_helpers(r, idx):
+    """40-70 helpers, each reading its own uniform; entry points of two stages call many of
+    them in index order (bookkeeping per function index must not alias)"""
+    spec = ShaderSpec()
+    spec.families = ["bind", "many-helpers"]
+    namer = Namer(r, nonascii=0.0)
+    n = r.choice([40, 48, 66, 70])
+    for k in range(n):
+        spec.globals.append(Global("ub%d" % k, "buffer", space="uniform", access=None,
+                                   ty=W.V(4, "f32"), group=k // 16, binding=k % 16))
+    for k in range(n):
+        f = Func("helper_%d" % k, r.random() < 0.5)
+        form, e_, s_ = buffer_forms(spec.globals[k], spec.structs, prefer=r.randrange(8))[0]
+        f.actions.append(Action("access", r.choice(S_SITES[:13]), glob=["ub%d" % k], form=form,
+                                expr=e_, stmt=None))
+        spec.funcs.append(f)
+    stages = r.sample(["vertex", "fragment", "compute"], 2)
+    picks = [list(range(n)), sorted(r.sample(range(n), n // 2))]
+    # pairs 32 and 64 apart in one body
+    k0 = r.randrange(0, n - 33)
+    picks.append([k0, k0 + 32] + ([k0 + 64] if k0 + 64 < n else []))
+    for i, st in enumerate(stages + [stages[0]]):
+        e = Entry(namer.fresh({"vertex": "vs_", "fragment": "fs_", "compute": "cs_"}[st]), st)
+        for k in picks[i]:
+            f = spec.funcs[k]
+            if f.returns_value:
+                e.actions.append(Action("call", "let_init", callee=f.name, expr="%s()" % f.name,
+                                        stmt=None))
+            else:
+                e.actions.append(Action("call", "top", callee=f.name, expr=None,
+                                        stmt="%s();" % f.name))
+        spec.entries.append(e)
+    finish_entries(r, spec, namer)
     return spec
 
 
@@ -860,6 +914,20 @@ def role_structs(r, spec, namer):
                    {"name": namer.fresh("nest"), "ty": r.choice([W.ST(host_leaf),
                                                                  W.A(W.ST(host_leaf), 2),
                                                                  W.A(W.A(W.ST(host_leaf), 2), 3)])})
+    if r.random() < 0.12:
+        # a struct type WGSL predeclares (ray queries), filled by the host like any other
+        rd = W.StructDef("RayDesc", [{"name": "flags", "ty": W.S("u32")},
+                                     {"name": "cull_mask", "ty": W.S("u32")},
+                                     {"name": "tmin", "ty": W.S("f32")},
+                                     {"name": "tmax", "ty": W.S("f32")},
+                                     {"name": "origin", "ty": W.V(3, "f32")},
+                                     {"name": "dir", "ty": W.V(3, "f32")}])
+        rd.predeclared = True
+        spec.structs["RayDesc"] = rd
+        spec.structs[host_root].members.insert(
+            r.randint(0, len(spec.structs[host_root].members)),
+            {"name": namer.fresh("rays"), "ty": r.choice([W.ST("RayDesc"),
+                                                          W.A(W.ST("RayDesc"), 2)])})
     spec.globals.append(Global(namer.fresh("g"), "buffer", space="storage", access="read_write",
                                ty=r.choice([W.ST(host_root), W.A(W.ST(host_root), 2),
                                             W.A(W.ST(host_root), None)]), group=0, binding=0))
@@ -881,7 +949,9 @@ def role_structs(r, spec, namer):
                     if r.random() < 0.5 else (), loc_pool=vpool)
     vin2 = io_struct(r, spec, namer, "Inst", loc_pool=vpool) if r.random() < 0.5 else None
     vout = io_struct(r, spec, namer, "VOut", with_position=True)
-    fin = io_struct(r, spec, namer, "FIn") if r.random() < 0.5 else None
+    fin = io_struct(r, spec, namer, "FIn", builtins=r.sample(
+        [("front_facing", W.S("bool")), ("sample_index", W.S("u32")),
+         ("position", W.V(4, "f32"))], r.choice([0, 1, 1, 2]))) if r.random() < 0.6 else None
     fout = io_struct(r, spec, namer, "FOut", flat_ints=False,
                      types=[W.V(4, "f32"), W.S("f32"), W.V(4, "u32"), W.V(2, "f32")],
                      builtins=[("frag_depth", W.S("f32"))] if r.random() < 0.4 else ()) \
@@ -1061,6 +1131,9 @@ def fam_entry(r, idx):
                 # declaration still has a default, so the field stays optional
                 default = r.choice(same)["name"]
             ov = {"name": namer.fresh("ov_"), "ty": ty, "id": oid, "default": default}
+            if r.random() < 0.08 and oid is None and not any(o["name"] == "gen"
+                                                             for o in spec.overrides):
+                ov["name"] = "gen"  # an identifier for WGSL, a keyword of a later Rust edition
             if r.random() < 0.2:
                 # declared through a type alias
                 an = namer.fresh("Alias")
@@ -1068,6 +1141,21 @@ def fam_entry(r, idx):
                 spec.extra_decls.append("alias %s = %s;" % (an, ty))
                 ov["decl_ty"] = an
             spec.overrides.append(ov)
+    if len(spec.overrides) >= 2 and r.random() < 0.3:
+        # a default that uses an override declared LATER in the file, of another scalar type
+        i = r.randrange(len(spec.overrides) - 1)
+        j = r.randrange(i + 1, len(spec.overrides))
+        a, b = spec.overrides[i], spec.overrides[j]
+        refs_back = b.get("default") and any(o["name"] in str(b["default"])
+                                             for o in spec.overrides[:j])
+        if not refs_back:
+            conv = {("bool", "i32"): "%s > 0", ("bool", "u32"): "%s > 0u", ("bool", "f32"): "%s > 0.0",
+                    ("bool", "bool"): "!%s", ("i32", "i32"): "%s / 2", ("u32", "u32"): "%s / 2u",
+                    ("f32", "f32"): "%s * 0.5", ("f32", "i32"): "f32(%s)", ("f32", "u32"): "f32(%s)",
+                    ("i32", "u32"): "i32(%s)", ("u32", "i32"): "u32(%s)", ("i32", "f32"): "i32(%s)",
+                    ("u32", "f32"): "u32(%s)"}
+            if (a["ty"], b["ty"]) in conv:
+                a["default"] = conv[(a["ty"], b["ty"])] % b["name"]
     # locations budget (<= 16 attributes over the entry's buffers)
     shared_pool = []
     ents = []
@@ -1105,8 +1193,23 @@ def fam_entry(r, idx):
                 name = namer.fresh(r.choice(["Vertex", "Instance", "In", "Attr"]))
                 name = name[0].upper() + name[1:]
                 ms = []
+                if n and r.random() < 0.08:
+                    # location numbers far beyond any device limit are still the shader's numbers
+                    big = [16, 31, 255, 256, 300, 1000, 65535, 65536, 2 ** 31 - 1]
+                    free_big = [b for b in big if b not in getattr(e, "big_locs", set())]
+                    for k in range(min(len(mine), 2, len(free_big))):
+                        locs.append(mine[k])
+                        mine[k] = free_big.pop(r.randrange(len(free_big)))
+                        e.big_locs = getattr(e, "big_locs", set()) | {mine[k]}
                 for l in mine:
-                    ms.append({"name": namer.fresh("a"), "ty": r.choice(vtypes), "location": l})
+                    m_ = {"name": namer.fresh("a"), "ty": r.choice(vtypes), "location": l}
+                    if r.random() < 0.12:
+                        # the member's type written through a user alias
+                        an = namer.fresh("VAlias")
+                        an = an[0].upper() + an[1:]
+                        spec.extra_decls.append("alias %s = %s;" % (an, W.wgsl(m_["ty"])))
+                        m_["alias"] = an
+                    ms.append(m_)
                 avail = [(b, t) for (b, t) in [("vertex_index", W.S("u32")),
                                                ("instance_index", W.S("u32"))] if b not in have_b]
                 for b, ty in r.sample(avail, min(len(avail), r.choice([0, 0, 1, 2]) if n else
@@ -1138,13 +1241,13 @@ def fam_entry(r, idx):
         if k < 0.2:
             e.result = None
         elif k < 0.45:
-            e.result = {"kind": "location", "location": r.choice([0, 0, 1, 3]),
+            e.result = {"kind": "location", "location": r.choice([0, 0, 1, 3, 7, 8, 9, 15, 31]),
                         "ty": r.choice(["vec4<f32>", "f32", "vec4<u32>", "vec2<f32>", "i32"])}
         elif k < 0.55:
             e.result = {"kind": "builtin", "builtin": "frag_depth", "ty": "f32"}
         else:
             nl = r.randint(0, 4)
-            locs = r.sample(range(0, 8), nl)
+            locs = r.sample(range(0, 8) if r.random() < 0.75 else range(0, 20), nl)
             if r.random() < 0.5:
                 locs.sort()
             name = namer.fresh("FOut")
@@ -1363,7 +1466,11 @@ def fam_const(r, idx):
                              "const %s = vec3<f32>(1.0);",
                              "const %s = mat2x2<f32>(vec2<f32>(1.0, 0.0), vec2<f32>(0.0, 1.0));",
                              "const %s = array<vec2<f32>, 2>(vec2<f32>(1.0), vec2<f32>(2.0));",
-                             "const %s = vec2<f32>(1.0, 2.0).yx;"]) % name
+                             "const %s = vec2<f32>(1.0, 2.0).yx;",
+                             "const %s = array<f32, 1>(3.0);",
+                             "const %s = array<u32, 1>(7u);",
+                             "const %s = array<array<f32, 1>, 1>(array<f32, 1>(5.0));",
+                             "const %s = array<vec2<f32>, 1>(vec2<f32>(1.0, 2.0));"]) % name
             c = {"name": name, "decl": decl, "ty": "vector", "bits": None, "skipped": True}
         c.setdefault("skipped", False)
         if not c["skipped"] and c["ty"] in aliases and r.random() < 0.7:
@@ -1403,6 +1510,7 @@ def fam_const(r, idx):
         spec.header.append("//" + "a" * (idx % 4) + "é" * 40000)
         spec.header.append("/* " + "😀变" * 9000 + " */")
     spec.line_ending = r.choice(["\n", "\n", "\r\n", "\n"])
+    spec.consts_one_line = r.random() < 0.2
     spec.entries = [Entry(namer.fresh("cs_"), "compute")]
     spec.entries[0].workgroup_size = [1]
     spec.entries[0].workgroup_expected = [1, 1, 1]
@@ -1510,6 +1618,34 @@ def directed_struct_specs():
     e.params = [{"name": "v", "struct": "Bottom"}]
     e.result = {"kind": "position"}
     s.entries.append(e)
+    # a nested struct that is NOT the last member, followed by members whose types were seen
+    # before (twice the same type; a type known from an earlier variable); the nested struct
+    # is also a vertex input, so it is emitted whatever the reachability walk does
+    s = new("nested-first")
+    st(s, "Particle", [("pos", W.V(3, "f32"), {"location": 0}), ("vel", W.V(3, "f32"), {"location": 1}),
+                       ("life", W.S("f32"), {"location": 2})])
+    st(s, "Emitter", [("origin", W.V(4, "f32"), None)])
+    st(s, "Pool", [("first", W.ST("Particle"), None), ("count", W.S("u32"), None),
+                   ("cap", W.S("u32"), None)])
+    st(s, "Batch", [("emitter", W.ST("Emitter"), None), ("items", W.A(W.ST("Particle"), 2), None),
+                    ("scale", W.S("f32"), None), ("bias", W.S("f32"), None)])
+    _storage(s, "frame", W.S("u32"), 0, space="uniform")
+    _storage(s, "pool", W.ST("Pool"), 1)
+    _storage(s, "batch", W.ST("Batch"), 2)
+    e = Entry("vs_particles", "vertex")
+    e.params = [{"name": "p", "struct": "Particle"}]
+    e.result = {"kind": "position"}
+    s.entries.append(e)
+    # a struct reachable only as the element of a binding array of buffers (no @group/@binding:
+    # the tool refuses bound binding arrays, and the validator wants a binding, so this case
+    # counts on the front end's verdict alone)
+    s = new("binding-array")
+    s.parse_only = True
+    st(s, "BaInner", [("w", W.V(4, "f32"), None)])
+    st(s, "BaElem", [("v", W.V(4, "f32"), None), ("inner", W.ST("BaInner"), None)])
+    s.globals.append(Global("ba", "private", ty=W.A(W.ST("BaElem"), 2),
+                            decl_text="var<storage> ba: binding_array<BaElem, 2>;"))
+    _compute_entry(s)
     # vec3 packing
     s = new("vec3")
     st(s, "Vec3ThenScalar", [("a", W.V(3, "f32"), None), ("b", W.S("f32"), None),
@@ -1525,6 +1661,11 @@ def directed_struct_specs():
     st(s, "RtVec3", [("count", W.S("u32"), None), ("items", W.A(W.V(3, "f32"), None), None)])
     st(s, "RtStruct", [("count", W.V(4, "u32"), None), ("items", W.A(W.ST("Elem"), None), None)])
     st(s, "RtMat", [("items", W.A(W.M(3, 3), None), None)])
+    st(s, "RtFixed", [("bounds", W.A(W.V(4, "f32"), 2), None),
+                      ("grid", W.A(W.A(W.S("f32"), 2), 3), None),
+                      ("cells", W.A(W.ST("Elem"), 2), None),
+                      ("items", W.A(W.V(4, "f32"), None), None)])
+    _storage(s, "d", W.ST("RtFixed"), 3)
     _storage(s, "a", W.ST("RtVec3"), 0)
     _storage(s, "b", W.ST("RtStruct"), 1)
     _storage(s, "c", W.ST("RtMat"), 2)
